@@ -37,7 +37,9 @@ theorem layerInfo_errIn (v : Nat) (d : B) (p : Nat) : ErrIn (LayerInfo.dec v d p
   refine ErrIn.bind hm fun ⟨li, p2⟩ _ => ?_
   dsimp only
   split
-  · exact ErrIn.ok _
+  · split
+    · exact ErrIn.error overflow_mem
+    · exact ErrIn.ok _
   · exact ErrIn.error assertion_mem
 
 theorem layerAndMaskBody_errIn (v endPos : Nat) (d : B) (p : Nat) : ErrIn (LayerAndMask.bodyDec v endPos d p) := by
@@ -58,7 +60,11 @@ theorem layerAndMask_errIn (v : Nat) (d : B) (p : Nat) : ErrIn (LayerAndMask.dec
     split
     · exact ErrIn.ok _
     · exact layerAndMaskBody_errIn v _ d p1
-  exact ErrIn.bind hm fun ⟨x, _⟩ _ => ErrIn.ok _
+  refine ErrIn.bind hm fun ⟨x, _⟩ _ => ?_
+  dsimp only
+  split
+  · exact ErrIn.error overflow_mem
+  · exact ErrIn.ok _
 
 theorem psd_errIn (d : B) (p : Nat) : ErrIn (PSD.read d p) := by
   unfold PSD.read
@@ -73,28 +79,40 @@ theorem psd_errIn (d : B) (p : Nat) : ErrIn (PSD.read d p) := by
 
 theorem layerInfo_cursor {v : Nat} {d : B} {p : Nat} {li : LayerInfo} {p' : Nat}
     (h : LayerInfo.dec v d p = .ok (li, p')) :
-    ∃ n, readU (secW v) d p = .ok (n, p + secW v) ∧ p' = p + secW v + n := by
+    ∃ n, readU (secW v) d p = .ok (n, p + secW v) ∧ p' = p + secW v + n ∧ ¬ overflows p' d := by
   unfold LayerInfo.dec at h
   obtain ⟨⟨n, p1⟩, h1, h⟩ := bind_ok h
   obtain ⟨⟨li', p2⟩, _, h⟩ := bind_ok h
   have a1 := readU_ok h1
   simp only at h
   split at h
-  · cases h
-    refine ⟨n, ?_, by omega⟩
-    rw [h1, a1.1]
+  · split at h
+    · cases h
+    · rename_i hov
+      cases h
+      refine ⟨n, ?_, by omega, hov⟩
+      rw [h1, a1.1]
   · cases h
 
 theorem layerAndMask_cursor {v : Nat} {d : B} {p : Nat} {x : LayerAndMask} {p' : Nat}
     (h : LayerAndMask.dec v d p = .ok (x, p')) :
-    ∃ n, readU (secW v) d p = .ok (n, p + secW v) ∧ p' = p + secW v + n := by
+    ∃ n, readU (secW v) d p = .ok (n, p + secW v) ∧ p' = p + secW v + n ∧ ¬ overflows p' d := by
   unfold LayerAndMask.dec at h
   obtain ⟨⟨n, p1⟩, h1, h⟩ := bind_ok h
   obtain ⟨⟨x', p2⟩, _, h⟩ := bind_ok h
   have a1 := readU_ok h1
-  cases h
-  refine ⟨n, ?_, by omega⟩
-  rw [h1, a1.1]
+  simp only at h
+  split at h
+  · cases h
+  · rename_i hov
+    cases h
+    refine ⟨n, ?_, by omega, hov⟩
+    rw [h1, a1.1]
+
+/-- a position behind the end of a real stream (shorter than `2^63`) stays below `sys.maxsize + 1` -/
+theorem lt_pyMaxSize_of_not_overflows {n : Nat} {d : B} (h : ¬ overflows n d) (hd : d.length < pyMaxSize) :
+    n < pyMaxSize := by
+  unfold overflows at h; omega
 
 /-- a section that ends behind the end of the stream makes the next reader of `PSD.read` fail -/
 theorem imageData_behind_end {d : B} {p : Nat} (h : d.length < p) : ImageData.dec d p = .error .ioError := by
